@@ -513,7 +513,7 @@ func (r *runner) seq(id, class string, cmds []string) {
 		every = 40
 	}
 	if r.n%every == 0 {
-		runRPC(id, cmds)
+		runRPC(id, cmds, (r.n/every)%2 == 1)
 	}
 }
 
@@ -535,9 +535,10 @@ func main() {
 		sc.Buffer(make([]byte, 1<<20), 1<<24)
 		var rpcCmds []string // class "rpc": the sequence is run through the handlers too
 		rpcID := ""
+		rpcSplit := false
 		flush := func() {
 			if rpcID != "" {
-				runRPC(rpcID, rpcCmds)
+				runRPC(rpcID, rpcCmds, rpcSplit)
 			}
 			rpcID, rpcCmds = "", nil
 		}
@@ -547,8 +548,8 @@ func main() {
 			case "S":
 				flush()
 				r.begin(f[1], f[2])
-				if f[2] == "rpc" {
-					rpcID = f[1]
+				if f[2] == "rpc" || f[2] == "rpc2" {
+					rpcID, rpcSplit = f[1], f[2] == "rpc2"
 				}
 			case "C", "O":
 				if r.st == nil {
